@@ -365,7 +365,12 @@ def check_state(scn, st):
 
 
 def canaries():
-    return []
+    from ..explore import PresetChooser
+    st = b_surface_params(PresetChooser({}))
+    ok = check_state('surface-params', st)['ok']
+    st2 = b_surface_params(PresetChooser({}))
+    st2.fault = 'declared-faulty-although-valid'      # a finished conversion of a "faulty" deck must be reported
+    return [('c17-baseline', ok), ('c17-accepted-fault-detected', not check_state('surface-params', st2)['ok'])]
 
 
 def finish(agg, tier):
